@@ -396,6 +396,8 @@ struct Flags {
     exports_first: bool,
     /// Cfg.wildRefresh (F-C18-10)
     wild_refresh: bool,
+    /// Cfg.importCaptures (F-C18-9)
+    import_captures: bool,
 }
 
 /// names 200 + 10·a + b are the dotted module names `m<a>.v<b>`
@@ -499,14 +501,15 @@ fn path_sexp(p: &MPath) -> String {
 
 fn request(sc: &Scenario) -> String {
     let mut s = format!(
-        "run (cfg {} {} {} {} {} {} {} (stems",
+        "run (cfg {} {} {} {} {} {} {} {} (stems",
         sc.run_import_tests as u8,
         sc.host_tests as u8,
         sc.flags.alias as u8,
         sc.flags.canon as u8,
         sc.flags.str_alias as u8,
         sc.flags.exports_first as u8,
-        sc.flags.wild_refresh as u8
+        sc.flags.wild_refresh as u8,
+        sc.flags.import_captures as u8
     );
     if !sc.flags.dotted {
         // what Path::with_extension keeps of a dotted module name
@@ -2501,6 +2504,10 @@ fn functions_family(rng: &mut Rng) -> Scenario {
     if rng.chance(1, 3) {
         b.push(TAct::A(Act::Export(*rng.pick(&keys), 5)));
     }
+    if rng.chance(1, 3) {
+        // a LOCAL named like the module that the functions import: import roots are (not) captured
+        b.push(TAct::A(Act::Assign(2, 5)));
+    }
     let n_fns = 2 + rng.below(2);
     let fn_keys: Vec<Name> = (0..n_fns).map(|i| 70 + i as Name).collect();
     for fk in &fn_keys {
@@ -2514,10 +2521,14 @@ fn functions_family(rng: &mut Rng) -> Scenario {
             body.push(Act::Show(next(), *rng.pick(&keys)));
         }
         for _ in 0..rng.below(3) {
-            body.push(match rng.below(7) {
+            let choice = rng.below(7);
+            if choice == 3 {
+                body.push(Act::Import(vec![Item { name: 2, as_: Some(63), ..Default::default() }]));
+            }
+            body.push(match choice {
                 0 | 1 => Act::Export(*rng.pick(&keys), 10 + rng.below(9) as i64),
                 2 => Act::Cb(rng.below(CB_COUNT as usize) as u32, rng.below(4) as u32, *rng.pick(&keys)),
-                3 => Act::Import(vec![Item { name: 2, as_: Some(63), ..Default::default() }]),
+                3 => Act::Show(next(), 63),
                 4 => Act::Cmp(*rng.pick(&keys), COp::Add, Rhs::Lit(1)),
                 _ => Act::Assign(*rng.pick(&keys), 90),
             });
@@ -3104,7 +3115,7 @@ fn main() {
             .iter()
             .any(|e| e.get("id").and_then(|x| x.as_str()) == Some(id) && e.get("status").and_then(|x| x.as_str()) == Some("fixed"))
     };
-    let flags = Flags { alias: fixed("F-C18-1"), canon: fixed("F-C18-3"), dotted: fixed("F-C18-4"), str_alias: fixed("F-C18-5"), exports_first: fixed("F-C18-7"), wild_refresh: fixed("F-C18-10") };
+    let flags = Flags { alias: fixed("F-C18-1"), canon: fixed("F-C18-3"), dotted: fixed("F-C18-4"), str_alias: fixed("F-C18-5"), exports_first: fixed("F-C18-7"), wild_refresh: fixed("F-C18-10"), import_captures: fixed("F-C18-9") };
     let filter_f2 = open.iter().any(|x| x == "F-C18-2");
     let mut cx = Ctx { rep, drv, scratch, k_fail: 0, d_fail: 0, known_hits: Default::default(), open, flags };
 
@@ -3145,6 +3156,57 @@ fn main() {
             let mut sc = sc;
             sc.family = format!("corpus:{}", name);
             cx.one(&sc);
+        }
+    }
+
+    // 1a. listed findings whose witness is plain Koto source (shapes outside the scenario language):
+    //     `raw_files` {relative path: source}, `raw_script`, `raw_expected_stdout`
+    for e in cx.rep.known_entries() {
+        let (Some(id), Some(script), Some(expected)) = (
+            e.get("id").and_then(|x| x.as_str()),
+            e.get("raw_script").and_then(|x| x.as_str()),
+            e.get("raw_expected_stdout").and_then(|x| x.as_str()),
+        ) else {
+            continue;
+        };
+        let status_known = e.get("status").and_then(|s| s.as_str()) == Some("known");
+        let root = cx.scratch.next_dir();
+        std::fs::create_dir_all(&root).unwrap();
+        if let Some(files) = e.get("raw_files").and_then(|x| x.as_object()) {
+            for (rel, src) in files {
+                let p = root.join(rel);
+                std::fs::create_dir_all(p.parent().unwrap()).unwrap();
+                std::fs::write(&p, src.as_str().unwrap_or("")).unwrap();
+            }
+        }
+        let host = root.join("_host.koto");
+        std::fs::write(&host, script).unwrap();
+        let buf = Rc::new(RefCell::new(String::new()));
+        let settings = KotoSettings { run_tests: false, ..Default::default() }
+            .with_stdout(Capture { buf: buf.clone() })
+            .with_stderr(Capture { buf: Rc::new(RefCell::new(String::new())) });
+        let script_owned = script.to_string();
+        let host_path = host.to_string_lossy().to_string();
+        let res = kvh::catch(|| {
+            let mut koto = Koto::with_settings(settings);
+            koto.compile_and_run(CompileArgs::new(&script_owned).script_path(host_path)).map(|_| ()).map_err(|e| e.to_string())
+        });
+        let _ = std::fs::remove_dir_all(&root);
+        let got = buf.borrow().clone();
+        let why = match res {
+            Err(p) => format!("the run panicked: {}", p),
+            Ok(Err(e)) => format!("the script fails: {}", e.lines().next().unwrap_or("")),
+            Ok(Ok(())) if got.trim_end() != expected.trim_end() => format!("stdout is {:?}, expected {:?}", got.trim_end(), expected.trim_end()),
+            Ok(Ok(())) => String::new(),
+        };
+        let failing = !why.is_empty();
+        if status_known && failing {
+            cx.rep.known(id, &format!("witness still fails: {}", why));
+        } else if !status_known && failing {
+            cx.d_fail += 1;
+            cx.rep.violation("D", &format!("C18:regression:{}", id), json!({"why": why, "note": "a finding recorded as fixed fails again"}));
+        } else if status_known && !failing {
+            cx.rep.note(format!("{}: witness no longer fails (the defect seems repaired; update known_findings.json)", id));
         }
     }
 
